@@ -14,8 +14,8 @@ SCHEDULE_DEPENDENT = True
 RULE = ('2-6 client threads request the same singleton for the first time under a seeded scheduler '
         '(sticky/PCT, sync/line/opcode granularity inside SingletonDecorator.__call__; injected stalls of up to minutes of virtual time in the middle of a request); targets: the '
         'declared names ActiveFabric, FiberThreadEvent, InstrumentionWriter after an in-place reset, '
-        'fresh SingletonDecorator objects around the five real classes, and concurrent ActiveObject() '
-        'construction. Non-trivial = at least two threads were inside the first request at the same time '
+        'fresh SingletonDecorator objects around the five real classes, concurrent ActiveObject() '
+        'construction, and threads that ask for different singletons at once (fabric, writer, run event: the run event any of them holds must be the shared one). Non-trivial = at least two threads were inside the first request at the same time '
         '(their request intervals overlap); distinct = distinct (target, interleaving of request '
         'begin/end events) tuples.')
 ASSUMPTIONS = ['Signal()/ReturnStatus() are exercised through fresh decorators around SignalSource/'
@@ -24,7 +24,8 @@ PROBES = ['overlapping_first_requests']
 
 TARGETS = ['ActiveFabric', 'FiberThreadEvent', 'InstrumentionWriter',
            'fresh:ActiveFabricSource', 'fresh:SourceThreadEvent', 'fresh:InstrumenationWriterClass',
-           'fresh:SignalSource', 'fresh:ReturnStatusSource', 'ActiveObject']
+           'fresh:SignalSource', 'fresh:ReturnStatusSource', 'ActiveObject', 'mixed']
+MIXED = ['ActiveFabric', 'InstrumentionWriter', 'FiberThreadEvent']     # 'mixed': the threads ask for different ones at once
 
 PLAN = {
   'quick': {'strata': {'concurrent-first-request': 10000}, 'wall_s': 300, 'chunk': 100, 'min_conclusive': 500},
@@ -73,13 +74,16 @@ def execute(sc, sched):
     klass = getattr(ao, cname, None) or getattr(ev, cname)
     maker = seams.mods['singleton'].SingletonDecorator(klass)
     seams.adopt_locks(maker)
-  elif target == 'ActiveObject':
+  elif target in ('ActiveObject', 'mixed'):
     maker = None
   else:
     maker = getattr(ao, target)
   got = []
 
-  def request():
+  def request(k=None):
+    if target == 'mixed':
+      # slot per kind; a thread asks for one kind (which one depends on the thread), the final request for all of them
+      return tuple(getattr(ao, n)() if k is None or (k + sc['threads']) % len(MIXED) == j else None for j, n in enumerate(MIXED))
     if maker is not None:
       return (maker(),)
     a = ao.ActiveObject(name='x')
@@ -88,7 +92,7 @@ def execute(sc, sched):
   def client(k):
     for i in range(sc['requests']):
       sim.record('c30', 'req', 'begin', k)
-      o = request()
+      o = request(k)
       sim.record('c30', 'req', 'end', k)
       got.append((k, i, o))
 
@@ -106,14 +110,22 @@ def execute(sc, sched):
   else:
     later = request()
     for slot in range(len(later)):
-      ids = set(id(o[slot]) for _, _, o in got)
+      ids = set(id(o[slot]) for _, _, o in got if o[slot] is not None)
       ids.add(id(later[slot]))
       if len(ids) != 1:
         res.violate('two-instances', {'kind': 'declared' if maker is None or not target.startswith('fresh:') else 'fresh'},
                     'target %s slot %d: %d distinct objects returned to %d threads (%s)' % (
                       target, slot, len(ids), sc['threads'],
-                      [(k, i, type(o[slot]).__name__, 'obj%d' % sorted(ids).index(id(o[slot]))) for k, i, o in got]))
+                      [(k, i, type(o[slot]).__name__, 'obj%d' % sorted(ids).index(id(o[slot]))) for k, i, o in got if o[slot] is not None]))
         break
+    if res.outcome != 'violation' and maker is None:
+      # the run event is one object wherever it is held: whatever the returned objects keep of its type is the shared one
+      shared = ao.FiberThreadEvent()
+      held = [(type(x).__name__, a) for o in [g[2] for g in got] + [later] for x in o if x is not None and hasattr(x, '__dict__')
+              for a, v in sorted(vars(x).items()) if type(v) is type(shared) and v is not shared]
+      if held:
+        res.violate('two-instances', {'kind': 'run-event-held'},
+                    'target %s: %s hold(s) a run event that is not the one FiberThreadEvent() returns' % (target, sorted(set(held))))
   # reach: did two first requests overlap?
   open_, overlap, order = set(), False, []
   first_done = False
